@@ -89,6 +89,8 @@ type Case struct {
 	ErrFirst bool `json:"err_first,omitempty"`
 	// SwitchDest: with Jobs > 1, the Generator gets a new destination object for the later job.
 	SwitchDest bool `json:"switch_dest,omitempty"`
+	// EditStop: with Jobs > 1, the later job passes the very same stop slice with one colour edited in place.
+	EditStop bool `json:"edit_stop,omitempty"`
 	// PathTransform: SetTransform (the path-data transform) is in force while the helper is called.
 	PathTransform bool `json:"path_transform,omitempty"`
 	// Retarget: with a Renderer as destination, after the first filled path the Renderer is aimed at
@@ -107,8 +109,17 @@ func arg(c Case, i int) float32 {
 
 var stopsModified bool
 
+// reuseSlice: with EditStop, the caller's one stop list, refilled in place from job to job.
+var reuseSlice []generate.GradientStop
+
 func callHelper(g *generate.Generator, c Case) (err error) {
 	stops := make([]generate.GradientStop, len(c.Stops), len(c.Stops)+2)
+	if c.EditStop {
+		if len(reuseSlice) != len(c.Stops) {
+			reuseSlice = make([]generate.GradientStop, len(c.Stops), len(c.Stops)+2)
+		}
+		stops = reuseSlice
+	}
 	for i, s := range c.Stops {
 		stops[i] = generate.GradientStop{Offset: float32(s.Offset), Color: s.color()}
 	}
@@ -206,7 +217,15 @@ func checkHelper(c Case) error {
 	if jobs < 1 {
 		jobs = 1
 	}
+	reuseSlice = nil
 	for job := 0; job < jobs; job++ {
+		if job > 0 && c.EditStop && len(c.Stops) > 0 {
+			// the caller edits one colour of its stop list in place and calls the helper again
+			// with the very same slice
+			c.Stops = append([]StopSpec{}, c.Stops...)
+			i := (len(c.Stops) - 1) / 2
+			c.Stops[i].Model, c.Stops[i].V = "RGBA", [4]uint16{0x12, 0x34, 0x56, 0xff}
+		}
 		if job > 0 && c.SwitchDest {
 			// the same Generator is pointed at a new destination of the same kind
 			newDest()
@@ -689,6 +708,10 @@ func genCase(t *rapid.T) (Case, []string) {
 	if rapid.IntRange(0, 3).Draw(t, "jobs") == 0 {
 		c.Jobs = 2
 		labels = append(labels, "same-helper-call-again-after-Reset")
+		if rapid.Bool().Draw(t, "editstop") {
+			c.EditStop = true
+			labels = append(labels, "same-stop-slice-with-a-colour-edited-in-place-for-the-second-job")
+		}
 		if rapid.Bool().Draw(t, "switchdest") {
 			c.SwitchDest = true
 			labels = append(labels, "generator-pointed-at-a-new-destination-for-the-second-job")
